@@ -66,6 +66,31 @@ def sink_results(result, sinks_meta):
     return out, problems
 
 
+def hang_class(job):
+    """Input class of a hung job, used ONLY to match the open finding F9 (bounded feedback cycle of iterate):
+    an iterate loop under tiny batches whose body amplifies, or whose body shuffles between >= 2 replicas."""
+    batch = str(job.get("batch", "default"))
+    parts = batch.split(":")
+    tiny = parts[0] == "single" or (parts[0] in ("fixed", "adaptive") and len(parts) > 1 and int(parts[1]) <= 3)
+    cfg = job.get("cfg", {})
+    par = cfg.get("par", 1) if cfg.get("mode") == "local" else sum(cfg.get("hosts", [1]))
+
+    def loops(nodes):
+        for n in nodes:
+            if n.get("op") in ("iterate", "replay"):
+                yield n
+                yield from loops(n.get("body", []))
+    for lp in loops(job.get("prog", {}).get("nodes", [])):
+        if lp["op"] != "iterate" or not tiny:
+            continue
+        body = lp.get("body", [])
+        if any(n.get("op") == "flat_map" and n.get("g") in ("dup", "range3") for n in body):
+            return "iterate_amplifying_body_single_element_batches"
+        if par >= 2 and any(n.get("op") in ("shuffle", "group_by", "gb_fold", "join") for n in body):
+            return "iterate_shuffle_body_several_replicas_small_batches"
+    return "other"
+
+
 def job_ok(r):
     return (not r.get("hang")) and all(h.get("ok") for h in r.get("hosts", [])) \
         and not any(h.get("build_panic") for h in r.get("hosts", []))
@@ -91,10 +116,10 @@ def run_suite(V, wd, programs, configs, prop, checks=("link", "boundary", "resul
         j = jobs_by_id[jid]
         if r.get("hang"):
             stats["hung"] += 1
-            V.add_violation({"prop": "C04", "kind": "job_hang", "job": jid,
+            V.add_violation({"prop": "C04", "kind": "job_hang", "job": jid, "class": hang_class(j),
                              "batch": j["batch"], "cfg": j["cfg"]}, replay=j)
             if prop != "C04":
-                V.add_violation({"prop": prop, "kind": "job_hang", "job": jid}, replay=j)
+                V.add_violation({"prop": prop, "kind": "job_hang", "job": jid, "class": hang_class(j)}, replay=j)
         elif not job_ok(r) and not expect_panic:
             stats["panicked"] += 1
             V.add_violation({"prop": prop, "kind": "job_panic", "job": jid,
